@@ -243,30 +243,57 @@ pub fn wig_stream(c: &WigCase) -> Vec<(String, Value)> {
     v
 }
 
+pub fn wig_text(c: &WigCase) -> String {
+    let mut t = String::new();
+    for ch in &c.chroms {
+        for it in &ch.items {
+            // `{}` prints the shortest decimal that parses back to the same f32 bits
+            t.push_str(&format!("{}\t{}\t{}\t{}\n", ch.name, it.s, it.e, it.v()));
+        }
+    }
+    t
+}
+
+fn scratch_file(text: &str) -> Result<tempfile::NamedTempFile, String> {
+    use std::io::Write as _;
+    let mut f = tempfile::NamedTempFile::new().map_err(|e| format!("HARNESS tempfile: {}", e))?;
+    f.write_all(text.as_bytes()).map_err(|e| format!("HARNESS tempfile: {}", e))?;
+    f.flush().map_err(|e| format!("HARNESS tempfile: {}", e))?;
+    Ok(f)
+}
+
 /// Run the real bigWig writer on the case into `sink`.  Ok(()) / Err(display of the error).
 pub fn write_wig_into(c: &WigCase, sink: Sink) -> Result<(), String> {
     let mut w = BigWigWrite::new(sink, wig_size_map(c));
     w.options = bbi_options(&c.opts, c.allow_ooo);
     let rt = make_runtime(c.opts.rt);
-    let stream = wig_stream(c);
     let ooo = c.allow_ooo;
-    if c.opts.two_pass {
-        w.write_multipass(
-            || {
-                Ok(BedParserStreamingIterator::wrap_infallible_iter(
-                    stream.clone().into_iter(),
-                    ooo,
-                ))
-            },
-            rt,
-        )
-        .map_err(|e| format!("{}", e))
-    } else {
-        w.write(
-            BedParserStreamingIterator::wrap_infallible_iter(stream.into_iter(), ooo),
-            rt,
-        )
-        .map_err(|e| format!("{}", e))
+    macro_rules! go {
+        ($mk:expr) => {{
+            if c.opts.two_pass {
+                w.write_multipass(|| Ok($mk), rt).map_err(|e| format!("{}", e))
+            } else {
+                w.write($mk, rt).map_err(|e| format!("{}", e))
+            }
+        }};
+    }
+    match c.opts.src {
+        SrcKind::Iter => {
+            let stream = wig_stream(c);
+            go!(BedParserStreamingIterator::wrap_infallible_iter(stream.clone().into_iter(), ooo))
+        }
+        SrcKind::SerialText => {
+            let text = wig_text(c);
+            go!(BedParserStreamingIterator::from_bedgraph_file(std::io::Cursor::new(text.clone().into_bytes()), ooo))
+        }
+        SrcKind::ParallelFile => {
+            let f = scratch_file(&wig_text(c))?;
+            let path = f.path().to_path_buf();
+            let idx = bigtools::bed::indexer::index_chroms(std::fs::File::open(&path).map_err(|e| format!("HARNESS {}", e))?)
+                .map_err(|e| format!("indexer: {}", e))?
+                .ok_or_else(|| "indexer: a grouped file was reported as not grouped".to_string())?;
+            go!(bigtools::beddata::BedParserParallelStreamingIterator::new(idx.clone(), ooo, path.clone(), bigtools::bed::bedparser::parse_bedgraph))
+        }
     }
 }
 
@@ -304,30 +331,52 @@ pub fn bed_stream(c: &BedCase) -> Vec<(String, BedEntry)> {
     v
 }
 
+pub fn bed_text(c: &BedCase) -> String {
+    let mut t = String::new();
+    for ch in &c.chroms {
+        for it in &ch.items {
+            if it.rest.is_empty() {
+                t.push_str(&format!("{}\t{}\t{}\n", ch.name, it.s, it.e));
+            } else {
+                t.push_str(&format!("{}\t{}\t{}\t{}\n", ch.name, it.s, it.e, it.rest));
+            }
+        }
+    }
+    t
+}
+
 pub fn write_bed_into(c: &BedCase, sink: Sink) -> Result<(), String> {
     let mut w = BigBedWrite::new(sink, bed_size_map(c));
     w.options = bbi_options(&c.opts, c.allow_ooo);
     w.autosql = c.autosql.clone();
     let rt = make_runtime(c.opts.rt);
-    let stream = bed_stream(c);
     let ooo = c.allow_ooo;
-    if c.opts.two_pass {
-        w.write_multipass(
-            || {
-                Ok(BedParserStreamingIterator::wrap_infallible_iter(
-                    stream.clone().into_iter(),
-                    ooo,
-                ))
-            },
-            rt,
-        )
-        .map_err(|e| format!("{}", e))
-    } else {
-        w.write(
-            BedParserStreamingIterator::wrap_infallible_iter(stream.into_iter(), ooo),
-            rt,
-        )
-        .map_err(|e| format!("{}", e))
+    macro_rules! go {
+        ($mk:expr) => {{
+            if c.opts.two_pass {
+                w.write_multipass(|| Ok($mk), rt).map_err(|e| format!("{}", e))
+            } else {
+                w.write($mk, rt).map_err(|e| format!("{}", e))
+            }
+        }};
+    }
+    match c.opts.src {
+        SrcKind::Iter => {
+            let stream = bed_stream(c);
+            go!(BedParserStreamingIterator::wrap_infallible_iter(stream.clone().into_iter(), ooo))
+        }
+        SrcKind::SerialText => {
+            let text = bed_text(c);
+            go!(BedParserStreamingIterator::from_bed_file(std::io::Cursor::new(text.clone().into_bytes()), ooo))
+        }
+        SrcKind::ParallelFile => {
+            let f = scratch_file(&bed_text(c))?;
+            let path = f.path().to_path_buf();
+            let idx = bigtools::bed::indexer::index_chroms(std::fs::File::open(&path).map_err(|e| format!("HARNESS {}", e))?)
+                .map_err(|e| format!("indexer: {}", e))?
+                .ok_or_else(|| "indexer: a grouped file was reported as not grouped".to_string())?;
+            go!(bigtools::beddata::BedParserParallelStreamingIterator::new(idx.clone(), ooo, path.clone(), bigtools::bed::bedparser::parse_bed))
+        }
     }
 }
 
